@@ -3,8 +3,9 @@ package network
 // C12, fetch part: "a block fetched by hash is the block that hash names".
 // Drives the real quorum function qspec.RequestBlockQF with reply sets that contain honest answers,
 // other blocks, near misses (one field changed) and blocks with relabelled certificate signers, and
-// checks that whatever it returns recomputes to the requested hash, and that an honest answer among
-// the replies is found.  Every observation is emitted for the kernel (qf_mismatches in Corr/C12.v):
+// checks that whatever it returns recomputes to the requested hash, IS the block that hash names
+// (field by field, including the signers of the embedded certificate), and that an honest answer
+// among the replies is found.  Every observation is emitted for the kernel (qf_mismatches in Corr/C12.v):
 // the model recomputes the set of admissible replies from the reply dumps, with SHA-256 given as the
 // table of digests Go computed for the decoded replies' bytes.
 
@@ -111,6 +112,54 @@ func c12MultiSig(ids []hotstuff.ID, salt byte) hotstuff.QuorumSignature {
 	return crypto.NewMulti(sigs...)
 }
 
+func c12Marshal(m proto.Message) []byte {
+	b, _ := proto.Marshal(m)
+	return b
+}
+
+func c12Infinity() []byte {
+	p := make([]byte, 96)
+	p[0] = 0xc0
+	return p
+}
+
+// c12Signers lists the participants of a block's certificate ("nil" for a nil signature).
+func c12Signers(b *hotstuff.Block) string {
+	s := b.QuorumCert().Signature()
+	if s == nil {
+		return "nil"
+	}
+	return hotstuff.IDSetToString(s.Participants())
+}
+
+// c12BlockDiff names the first component in which two blocks differ ("" if none).
+func c12BlockDiff(a, b *hotstuff.Block) string {
+	qa, qb := a.QuorumCert(), b.QuorumCert()
+	switch {
+	case a.Parent() != b.Parent():
+		return "parent"
+	case a.Proposer() != b.Proposer():
+		return "proposer"
+	case a.View() != b.View():
+		return "view"
+	case !bytes.Equal(a.Commands().Marshal(), b.Commands().Marshal()):
+		return "commands"
+	case a.Timestamp().UnixNano() != b.Timestamp().UnixNano():
+		return "timestamp"
+	case qa.View() != qb.View():
+		return "qc-view"
+	case qa.BlockHash() != qb.BlockHash():
+		return "qc-hash"
+	case (qa.Signature() == nil) != (qb.Signature() == nil):
+		return "qc-signature-presence"
+	case c12Signers(a) != c12Signers(b):
+		return "qc-signers"
+	case qa.Signature() != nil && !bytes.Equal(qa.Signature().ToBytes(), qb.Signature().ToBytes()):
+		return "qc-signature-bytes"
+	}
+	return ""
+}
+
 func c12WireBlock(pb *hotstuffpb.Block) *hotstuffpb.Block {
 	bs, err := proto.Marshal(pb)
 	if err != nil {
@@ -153,6 +202,16 @@ func TestVerifC12(t *testing.T) {
 		pool = append(pool, b)
 		parent = b
 	}
+	// blocks whose certificate is a BLS aggregate (the point at infinity under a bitfield)
+	for i, bf := range [][]byte{{0x07}, {0x05, 0x01}} {
+		agg, err := crypto.RestoreBLS12AggregateSignature(c12Infinity(), crypto.BitfieldFromBytes(bf))
+		if err != nil {
+			t.Fatal(err)
+		}
+		qc := hotstuff.NewQuorumCert(agg, parent.View(), parent.Hash())
+		b := hotstuff.NewBlock(parent.Hash(), qc, &clientpb.Batch{}, hotstuff.View(7+i), hotstuff.ID(1+i))
+		pool = append(pool, b)
+	}
 	pool = append(pool, gen)
 
 	// a lying reply derived from the honest one
@@ -188,6 +247,14 @@ func TestVerifC12(t *testing.T) {
 				l := w.ECDSASigs.Sigs
 				l[0].Signer, l[1].Signer = l[1].Signer, l[0].Signer
 				return pb, "relabelled signers (same bytes)"
+			}
+			if w, ok := pb.QC.GetSig().GetSig().(*hotstuffpb.QuorumSignature_BLS12Sig); ok {
+				if r.Intn(2) == 0 { // other claimed participants under the same aggregate
+					w.BLS12Sig.Participants = []byte{w.BLS12Sig.Participants[0] ^ 0x18}
+					return pb, "relabelled signers (same bytes)"
+				}
+				w.BLS12Sig.Participants = append(append([]byte{}, w.BLS12Sig.Participants...), 0)
+				return pb, "bitfield with a trailing zero byte (same signers)"
 			}
 			pb.View ^= 1 << 63
 			return pb, "view top bit"
@@ -230,6 +297,8 @@ func TestVerifC12(t *testing.T) {
 				pb, what = hotstuffpb.BlockToProto(orig), "honest"
 			case r.Intn(4) == 0:
 				pb, what = hotstuffpb.BlockToProto(pool[r.Intn(len(pool))]), "some stored block"
+			case r.Intn(3) == 0:
+				pb, what = lie(orig, 7)
 			default:
 				pb, what = lie(orig, r.Intn(10))
 			}
@@ -286,6 +355,17 @@ func TestVerifC12(t *testing.T) {
 				ok = false
 				v.Oracle(false, "fetch:returned-block-bytes-differ", "the returned block has the requested hash but other bytes", meta)
 			}
+			if d := c12BlockDiff(orig, blk); reqKind == "hash of a stored block" && d != "" {
+				ok = false
+				in := map[string]any{"requested_hash": fmt.Sprintf("%x", want[:]), "returned_from_node": node, "returned_reply": whats[node],
+					"named_block": orig.String(), "named_block_qc_signers": c12Signers(orig),
+					"accepted_block": blk.String(), "accepted_block_qc_signers": c12Signers(blk),
+					"accepted_block_hash": fmt.Sprintf("%x", sha256.Sum256(blk.ToBytes())), "replies": desc,
+					"accepted_reply_wire_hex": fmt.Sprintf("%x", c12Marshal(got))}
+				v.Oracle(false, "fetch:accepted-block-differs-from-named-block:"+d,
+					"RequestBlockQF accepted, for the hash of a stored block, a reply that differs from that block in: "+d+
+						" (named block signers "+c12Signers(orig)+", accepted block signers "+c12Signers(blk)+"); it would be stored under the honest hash", in)
+			}
 			observed = fmt.Sprintf("(Some %d)", node)
 			v.Count("found")
 			v.Count("returned." + whats[node])
@@ -324,15 +404,12 @@ func TestVerifC12(t *testing.T) {
 				table = append(table, "("+e.B(bs)+", "+e.B(d[:])+")")
 			}
 		}
-		term := "([], " + gList(table) + ", " + e.B(req) + ", " + gList(reps) + ", " + observed + ")"
+		term := "([(" + e.B(c12Infinity()) + ", " + e.B(c12Infinity()) + ")], " + gList(table) + ", " + e.B(req) + ", " + gList(reps) + ", " + observed + ")"
 		if len(e.defs) > 0 {
 			term = "(" + strings.Join(e.defs, " ") + " " + term + ")"
 		}
 		v.Seen(term, nrep >= 2, meta)
 		v.Case(s, term, meta)
-	}
-	if n := v.counts["returned.relabelled signers (same bytes)"]; n > 0 {
-		v.Note(fmt.Sprintf("remark (not counted as a violation): in %d reply sets RequestBlockQF returned a block whose certificate carries other signer labels than the stored block; Block.ToBytes covers the signature bytes but not the signer ids / BLS bitfield, so both blocks have the requested hash", n))
 	}
 	v.Close("random reply sets of 1..5 answers per request; non-trivial = at least two replies")
 }
